@@ -1344,7 +1344,7 @@ theorem bridge_paths {M : Model} {li : LexIn} {tm : Nat → Nat} (h : Agree M li
   subst hsrc
   obtain ⟨insts, hi⟩ := hall lid a w hwa
   have v := arcView h hl hwa
-  obtain ⟨wid, hwid, hwd⟩ := v.wid
+  obtain ⟨wid, hwid, hwd, hw⟩ := v.wid
   have hok := build_lexTreeOK li (fsgOf M) h.silCi
   -- owners along the path
   have hown : ∀ j, j ≤ k → q j < (buildLexTree li (fsgOf M)).nodes.size ∧ ((buildLexTree li (fsgOf M)).node (q j)).owner = a.src := by
@@ -1393,8 +1393,8 @@ theorem bridge_paths {M : Model} {li : LexIn} {tm : Nat → Nat} (h : Agree M li
       obtain ⟨ss, hss', hye⟩ := hfy
       subst hye
       refine ⟨_, hy, ⟨f1, f2, ?_, ?_, ?_, fun _ => f3, fun _ => f7, fun c' hc' => ?_, fun c' hc' => (by cases hc')⟩, rfl⟩
-      · rw [hss]; exact hl.single p c ss hss'
-      · rw [f5]; exact hl.ciTmat p tmv htmv
+      · rw [hss]; exact hw.single' hp (ctxList_lt hcl) hss'
+      · rw [f5]; exact hw.ciTmat'' hp (k := 0) (by simp) htmv
       · rw [f6, shift_eq hl, hl.wip, hl.pip]
       · simp only [Option.some.injEq] at hc'
         subst hc'; exact hc
@@ -1406,8 +1406,8 @@ theorem bridge_paths {M : Model} {li : LexIn} {tm : Nat → Nat} (h : Agree M li
       subst hins
       refine Or.inl ⟨_, List.mem_singleton.2 rfl, ⟨f1, f2, ?_, ?_, ?_, fun _ => f3, fun _ => (by rw [f7]; exact h.sil),
         fun c' hc' => (by cases hc'), fun c' hc' => (by cases hc')⟩, rfl, rfl⟩
-      · rw [f4]; exact hl.ciSsid p ss hss
-      · rw [f5]; exact hl.ciTmat p tmv htmv
+      · rw [f4]; exact hw.ciSsid' hp hss
+      · rw [f5]; exact hw.ciTmat'' hp (k := 0) (by simp) htmv
       · rw [f6, shift_eq hl, hl.wip, hl.pip]
   · obtain ⟨⟨r3, r4⟩, hint, l3, l4⟩ := hk1 hk
     obtain ⟨p0, p1, rest, hp⟩ := pron_two (by omega : 2 ≤ w.pron.length)
@@ -1417,8 +1417,8 @@ theorem bridge_paths {M : Model} {li : LexIn} {tm : Nat → Nat} (h : Agree M li
       obtain ⟨hcl, hss⟩ := r4 c hc
       obtain ⟨ss, tm0, hss', htm0, hmem⟩ := (multi_insts hp hi).1 c ((lc_iff h v.src c).1 hcl)
       refine ⟨_, hmem, rfl, rfl, f1, f2, ?_, ?_, ?_, fun hc' => (by cases hc'), fun _ => f7, fun c' hc' => ?_, fun c' hc' => (by cases hc')⟩
-      · rw [hss]; exact hl.begin_ p0 c p1 ss hss'
-      · rw [f5]; exact hl.ciTmat p0 tm0 htm0
+      · rw [hss]; exact hw.begin' hp (ctxList_lt hcl) hss'
+      · rw [f5]; exact hw.ciTmat'' hp (k := 0) (by simp) htm0
       · rw [f6, hl.wip, hl.pip]
       · simp only [Option.some.injEq] at hc'
         subst hc'; exact hc
@@ -1427,15 +1427,15 @@ theorem bridge_paths {M : Model} {li : LexIn} {tm : Nat → Nat} (h : Agree M li
       obtain ⟨ss, tmv, hss, htmv, hmem⟩ := (multi_insts hp hi).2.1 j' (by omega)
       refine ⟨_, hmem, rfl, rfl, rfl, (hown (j' + 1) (by omega)).2, d1, ?_, ?_, ?_, fun hc' => (by cases hc'),
         fun hc' => (by rcases hc' with hc' | hc' <;> cases hc'), fun c' hc' => (by cases hc'), fun c' hc' => (by cases hc')⟩
-      · rw [d2]; exact hl.internal wid w j' ss hwd (by rw [hp]; exact hss)
-      · rw [d3]; exact hl.ciTmat _ tmv htmv
+      · rw [d2]; exact hw.internal' (k := j') (by rw [hp]; omega) (by rw [hp]; exact hss)
+      · rw [d3]; exact hw.ciTmat'' hp (k := j' + 1) (by omega) htmv
       · rw [d4, hl.pip]
     · obtain ⟨f1, f2, f3, _, f5, f6, f7⟩ := core_eq l3
       obtain ⟨hcl, hss⟩ := l4 c hc
       obtain ⟨ss, tml, hss', html, hmem⟩ := (multi_insts hp hi).2.2 c ((rc_iff h v.dstLt c).1 hcl)
       refine ⟨_, hmem, rfl, rfl, f1, f2, ?_, ?_, ?_, fun _ => f3, fun _ => f7, fun c' hc' => (by cases hc'), fun c' hc' => ?_⟩
-      · rw [hss]; exact hl.final _ _ c ss hss'
-      · rw [f5]; exact hl.ciTmat _ tml html
+      · rw [hss]; exact hw.final' hp (ctxList_lt hcl) hss'
+      · rw [f5]; exact hw.ciTmat'' hp (k := (p0 :: p1 :: rest).length - 1) (by simp) html
       · rw [f6, shift_eq hl, hl.pip]
       · simp only [Option.some.injEq] at hc'
         subst hc'; exact hc
